@@ -223,7 +223,7 @@ PROPS['C02'] = {
 
 PROPS['C03'] = {
     'level': 'other',
-    'units': ['C03/lcp', 'C04/invert', 'C05/sampled', 'C18/smallints', 'C04/less', 'C04/occ'],
+    'units': ['C03/lcp', 'C03/suffix', 'C04/invert', 'C05/sampled', 'C18/smallints', 'C04/less', 'C04/occ'],
     'kani': [],
     'oracle': 'C03',
     'decided': ['lcp() (Kasai): GIVEN a sorted suffix array of a single-sentinel text of length >= 2, the LCP array holds -1 at both ends and the TRUE longest-common-prefix length of every pair of adjacent suffixes (suffix-order theory: lcp characterisation, antisymmetry, transitivity, sandwich lemma, Kasai lemma - all proved; termination of the scan proved)',
@@ -231,9 +231,11 @@ PROPS['C03'] = {
                 'SampledSuffixArray::{get, len} (units C05/sampled - texts with one or several sentinels - and C04/invert - single sentinel; components instantiated at references): for EVERY text and suffix array (sorted in the order of the transformed text) the sampled structure represents (every s-th row sampled, rows whose BWT symbol is a sentinel cached), get(i) == Some(pos[i]) for i < n and None otherwise; the LF walk terminates (the text position strictly decreases) - by the machine-checked LF-mapping theorem',
                 'the LCP-array container SmallInts<i8, isize> behaves as a plain Vec<isize> for every value incl. exactly 127, larger and negative (unit shared with C18)',
                 'bwt/less/Occ (used by the sampled suffix array walk, every Occ sampling rate) are exact (units shared with C04)'],
+    'decided_extra': ['suffix_array() around SA-IS (unit C03/suffix, real code): sentinel / sentinel_count (the assert! on the sentinel being the smallest symbol, the fold counting sentinels - rules R40, R41), transform_text generic over the integer type (sentinels count down to 0, every other symbol is its alphabet rank shifted above them; every cast succeeds because alphabet size + sentinel count fits the chosen type) and the u8/u16/u32/u64 dispatch of suffix_array (R42, R43): GIVEN the assumed contract of the stub Sais::construct (on a dense integer text ending in a unique minimum, pos becomes the sorted permutation of the suffixes) the result is a permutation of all positions sorted in the order of the coding tr(t) - every sentinel below all other symbols, the final sentinel smallest, sentinel occurrences ordered by one fixed total order (a later sentinel is smaller)',
+                      'the integer text handed to SA-IS meets the documented input requirement of SA-IS (dense alphabet 0..=max, last symbol the unique minimum: lemma_tt_input_ok) and is order-isomorphic to tr(t) (lemma_tt_iso); order-isomorphic integer texts have the same sorted suffix arrays (lemma_iso_sorted) - so the hypothesis "sorted in the order of tr(t)" of the C03/C05/C06 theorems is exactly the assumed contract of Sais::construct'],
     'undecided': ['SA-IS construction (Sais::{construct, calc_lms_pos, sort_lms_suffixes, calc_pos}): that the array IS sorted - induced sorting correctness is out of reach of the contracts built here (the lcp proof takes sortedness as a precondition)',
-                  'transform_text / sentinel_count (closure adapters, generic casts)'],
-    'trusted': ['SmallInts stub inside C03/lcp carries exactly the from_elem/set/get contracts proved in C18/smallints', 'SuffixArray trait reduced to get/len with the obvious view contract (RawSuffixArray = Vec<usize> implements it by slice access: not verified here)', 'cmp::min std spec', 'as C18 / C04 for the shared units'],
+                  'suffix_array_int, Sais::new, PosTypes (not under contract)'],
+    'trusted': ['ASSUMED (unit C03/suffix): the contract of Sais::construct - on a dense integer text ending in a unique minimum, pos becomes the sorted permutation of all suffix positions (SA-IS itself is not verified); Sais::new stub', 'unit C03/suffix stubs: Alphabet::new/len (the set of bytes of the text in ascending order), RankTransform::new (contract proved in C19/qgrams, restated), num_traits::cast (succeeds iff the value fits), the spec trait IntSym standing for the numeric trait bundle of the integer types u8/u16/u32/u64', 'SmallInts stub inside C03/lcp carries exactly the from_elem/set/get contracts proved in C18/smallints', 'SuffixArray trait reduced to get/len with the obvious view contract (RawSuffixArray = Vec<usize> implements it by slice access: not verified here)', 'cmp::min std spec', 'as C18 / C04 for the shared units'],
     'level_text': 'Verus proves the LCP computation (Kasai) and the shortest-unique-substring table correct for every sorted suffix array of a single-sentinel text, plus the containers and tables the module builds on; that SA-IS produces the sorted array is NOT decided by contracts (bounded stand-in only).',
     'level_note': 'Level other (partial): LCP and shortest unique substrings given sortedness, containers, tables. Suffix sorting itself undecided.',
 }
